@@ -188,7 +188,9 @@ def run(ctx):
             kind = kinds[i % len(kinds)]
             lo, hi, d = ranges(rnd)
             spec = G.shape_term(rnd, "t", lo, hi, kind=kind, d=d, free_height=True)
-            term = G.build_term(fl, spec)
+            route = rnd.choice(["constructor", "constructor", "factory", "create"])
+            term = G.build_term(fl, spec, route=route)
+            ctx.hit(f"route:{route}")
             xs = G.x_values(rnd, spec, lo, hi)
             form = i // len(kinds) % 4
             arr = np.array(xs)
